@@ -41,7 +41,7 @@ except Exception as ex:
     out.append(("norm-exc", type(ex).__name__, str(ex)))
 try:
     q = s.Select(lambda e: e.jets().get().pt())
-    out.append(("mixin-q", ast.unparse(q.query_ast), str(q._item_type) if hasattr(q, "_item_type") else None))
+    out.append(("mixin-q", ast.unparse(q.query_ast), str(q.item_type)))
 except Exception as ex:
     out.append(("mixin-exc", type(ex).__name__, str(ex)))
 # 4 dataclass
